@@ -190,6 +190,102 @@ func cliProject(res *Result, sc *cliScenario, r *cliRun, prop string) (string, *
 			ex.obsGot = append(ex.obsGot, got)
 		}
 	}
+	// what the PEER wrote decides, not what the client's parser made of it: a well-formed reply
+	// (or group of replies, with or without blanks around it) to requests that are outstanding on a
+	// running client must reach their callers. Checked on fault-free scenarios only.
+	faultFree := sc.RecvFailAt == 0 && sc.SendFailAt == 0
+	for _, op := range sc.Ops {
+		if op.Kind == "cancel" || op.Kind == "close" || op.Kind == "peerclose" || op.Kind == "setid" {
+			faultFree = false
+		}
+	}
+	if faultFree {
+		outstanding := map[string]bool{} // ids seen by the peer, not yet answered
+		stoppedNow := false
+		expected := map[string]string{} // tag -> result text the peer sent first
+		for _, e := range r.Log {
+			switch {
+			case strings.HasPrefix(e, "peer-got "):
+				var many []struct {
+					ID json.RawMessage `json:"id"`
+				}
+				txt := strings.TrimPrefix(e, "peer-got ")
+				if json.Unmarshal([]byte(txt), &many) != nil {
+					var one struct {
+						ID json.RawMessage `json:"id"`
+					}
+					json.Unmarshal([]byte(txt), &one)
+					many = append(many[:0], one)
+				}
+				for _, m := range many {
+					if len(m.ID) > 0 {
+						outstanding[string(m.ID)] = true
+					}
+				}
+			case strings.HasPrefix(e, "onstop"):
+				stoppedNow = true
+			case strings.HasPrefix(e, "peer-send "):
+				txt := strings.TrimSpace(strings.TrimPrefix(e, "peer-send "))
+				type rep struct {
+					ID     json.RawMessage `json:"id"`
+					Method string          `json:"method"`
+					Result *string         `json:"result"`
+					Error  json.RawMessage `json:"error"`
+					V      string          `json:"jsonrpc"`
+				}
+				var many []rep
+				if !json.Valid([]byte(txt)) {
+					stoppedNow = true // an undecodable record stops the client
+					continue
+				}
+				if json.Unmarshal([]byte(txt), &many) != nil {
+					var one rep
+					if json.Unmarshal([]byte(txt), &one) != nil {
+						continue
+					}
+					many = append(many[:0], one)
+				}
+				if len(many) == 0 {
+					stoppedNow = true // "[]" is refused as a whole
+				}
+				for _, m := range many {
+					id := string(m.ID)
+					if stoppedNow || m.Method != "" || m.Result == nil || len(m.Error) != 0 || m.V != "2.0" || !outstanding[id] {
+						continue
+					}
+					delete(outstanding, id)
+					if tg := tagOfID[id]; tg != "" && expected[tg] == "" {
+						expected[tg] = *m.Result
+					}
+				}
+			}
+		}
+		// deliveries of different messages run concurrently: the expectation is only firm for an id
+		// that the peer mentioned exactly once in the whole run
+		mentions := map[string]int{}
+		for _, e := range r.Log {
+			if strings.HasPrefix(e, "peer-send ") {
+				for id := range tagOfID {
+					mentions[id] += strings.Count(e, `"id":`+id+`,`) + strings.Count(e, `"id":`+id+`}`)
+				}
+			}
+		}
+		for tg, want := range expected {
+			if mentions[r.ids[tg]] != 1 {
+				continue
+			}
+			opTag := strings.SplitN(tg, ".", 2)[0]
+			got := ""
+			for _, e := range r.Log {
+				if strings.HasPrefix(e, "ret "+opTag+" ") {
+					got = e
+				}
+			}
+			if !strings.Contains(got, want) {
+				res.Violatef("a well-formed reply to an outstanding request did not reach its caller", in, "request %s: the peer answered %q, the operation returned %q; log: %s", tg, want, got, shortLog(r.Log))
+			}
+		}
+	}
 	// exactly-once completion of every operation
 	for tag := range ops {
 		if returns[tag] != 1 {
@@ -293,7 +389,7 @@ func cliTraffic(rng *rand.Rand, nOps int, faults bool) *cliScenario {
 		}
 		group := live[:n]
 		live = live[n:]
-		mod := []string{"", "", "err", "dup", "arr", "both"}[rng.Intn(6)]
+		mod := []string{"", "", "err", "dup", "arr", "both", "pad", "arr pad"}[rng.Intn(8)]
 		if rng.Intn(5) == 0 {
 			continue // never answered
 		}
